@@ -22,9 +22,9 @@ func init() {
 		Level: "fault_enumeration",
 		Cases: func(t string) int {
 			if t == "thorough" {
-				return 9000
+				return 12000
 			}
-			return 600
+			return 900
 		},
 		Batch: func(t string) int { return 30 },
 		Floors: []string{"sink_faults", "sink_exhaustive_files", "sink_mode_error", "sink_mode_short", "sink_mode_transient", "truncations", "truncation_exhaustive_files", "readat_faults", "readat_mode_error", "readat_mode_short_error", "readat_mode_early_eof",
